@@ -31,9 +31,13 @@ func NewUUIDStringProvider(format string, reader io.Reader) StringProvider {
 		format = "%s"
 	}
 
+	if reader == nil {
+		reader = rand.Reader
+	}
+
 	return &uuidStringProvider{
 		format: format,
-		reader: rand.Reader,
+		reader: reader,
 		known:  make(map[rdf.BlankNodeIdentifier]uuid.UUID),
 	}
 }
@@ -49,6 +53,7 @@ func (sp *uuidStringProvider) GetBlankNodeString(bn rdf.BlankNode) string {
 		}
 
 		sp.known[bn.Identifier] = value
+		index = value
 	}
 
 	sp.mutex.Unlock()
